@@ -13,6 +13,7 @@ lengths of **all** enclosing repeating constructs (for, tablerow, include with a
 of the callers of the partial template or macro it belongs to). `prod e.enclosing` is "the product of the lengths of
 all enclosing repeating constructs" of the property text; for an iteration of a loop it includes that loop's own length.
 -/
+set_option linter.unusedSimpArgs false
 namespace LiquidVerif.C06
 open LiquidVerif.LoopLimit
 
@@ -88,5 +89,45 @@ theorem other_errors_unchanged (E : Env) (N : Nat) (hl : E.limit = some N) (hN :
     by_cases ha : AllLe N t1
     · rw [hr.1 ha] at h; cases h
     · rw [hr.2 ha] at h; cases h; exact absurd rfl hne
+
+/-- With no limit configured — `None`, or `0`, which the code's `if limit and …` treats the same way — a render never
+raises `LoopIterationLimitError` (the quantifier of the property starts at limit 1 for this reason). -/
+theorem no_limit_never_raises (E : Env) (hl : E.limit = none ∨ E.limit = some 0) (nodes : List Node) :
+    renderTemplate E nodes ≠ .error .loopLimit := by
+  have hov : ∀ c n, overLimit E.limit c n = false := by
+    intro c n
+    rcases hl with h | h <;> rw [h]
+    · rfl
+    · exact overLimit_zero c n
+  unfold renderTemplate
+  simp only []
+  split
+  · intro h; cases h
+  · exact (never_raises_aux E hov).2.2.1 _ _ _
+
+/-- **The ghost list is only a ghost.** Replacing the list of true enclosing lengths by anything else changes neither
+whether the render completes, nor the error raised, nor which blocks execute in which order, nor the macro tables:
+the model never reads it, so the theorems above speak about the mechanism itself (loop stack, carry, copies). -/
+theorem ghost_erasure (E : Env) (c : Cx) (m : Macros) (nodes : List Node) (g : List Nat) :
+    erase (renderList E { c with ghost := g } m nodes) = erase (renderList E c m nodes) :=
+  (erase_aux E).2.2.1 c m nodes g
+
+/-! ## Non-vacuity: the hypotheses are met by concrete nests, on both sides of the limit -/
+
+/-- tablerow over 2 containing a for over 3 raises under limit 5 (the nest the unchanged tree let through) … -/
+example : renderTemplate ⟨some 5, 30, []⟩ [.tablerow 1 2 [.forn 2 3 [.mark 3] []]] = .error .loopLimit := by
+  simp [renderTemplate, renderList, render, iter, seqRes, overLimit, reduceMul]
+
+/-- … a render-for over 1 whose partial loops over 2 completes under limit 2, every execution under product ≤ 2 -/
+example : renderTemplate ⟨some 2, 30, [("p", [.forn 2 2 [.mark 3] []])]⟩ [.render 1 "p" (some 1)]
+    = .ok ([], [⟨1, [1]⟩, ⟨2, [1, 2]⟩, ⟨3, [1, 2]⟩, ⟨2, [1, 2]⟩, ⟨3, [1, 2]⟩]) := by
+  simp [renderTemplate, renderList, render, iter, iterPartial, renderPartial, seqRes, discardRes, overLimit, reduceMul,
+    lookup, Cx.copied]
+
+/-- … and the same nest under limit 1 raises, while with limit 0 (falsy) it completes. -/
+example : renderTemplate ⟨some 1, 30, [("p", [.forn 2 2 [.mark 3] []])]⟩ [.render 1 "p" (some 1)]
+    = .error .loopLimit := by
+  simp [renderTemplate, renderList, render, iter, iterPartial, renderPartial, seqRes, discardRes, overLimit, reduceMul,
+    lookup, Cx.copied]
 
 end LiquidVerif.C06
